@@ -412,7 +412,12 @@ func (b *BinaryExpr) SQL() string {
 
 func (u *UnaryExpr) SQL() string {
 	p := exprPrec(u)
-	return string(u.Op) + strOpt(u.Op == OpNot, " ") + paren(p, u.Expr)
+	e := paren(p, u.Expr)
+	if u.Op == OpMinus && strings.HasPrefix(e, "-") {
+		// "--" would start a comment, so keep a space between the two minus signs.
+		return string(u.Op) + " " + e
+	}
+	return string(u.Op) + strOpt(u.Op == OpNot, " ") + e
 }
 
 func (i *InExpr) SQL() string {
